@@ -192,6 +192,16 @@ def generate(rng: random.Random, tier: str):
                                schema=info.schema_term(), kind="content_match_at")
 
 
+    # the compiled mark sets against the node specs (appended; one case per schema family)
+    for fam in gen.FAMILY:
+        info = info_for(fam)
+        sc = gen.family(fam)
+        yield Case(coq="CSchemaMarks @S@", desc={"op": "schema-marks", "family": fam,
+                                                "mark_set": {k: (None if v.mark_set is None else [m.name for m in v.mark_set])
+                                                             for k, v in sc.nodes.items()}},
+                   schema=info.schema_term(), kind="schema-marks")
+
+
 def rebuild(desc):
     raise NotImplementedError("C07 replays are re-run through the generator with the recorded seed")
 
